@@ -314,6 +314,32 @@ def r5_register_frames(ctx, rule="C05.R5"):
                    "FUNCTION) does not restore the register stack to its depth at the call (PushRet touches "
                    "register_stack: %s, PopRet: %s): EXIT SUB inside a FOR body leaves the loop's frame pushed and "
                    "the caller's FOR reads the callee's limit and step" % (unwinding["PushRet"], unwinding["PopRet"]))
+    # the same for the value stack: SELECT CASE parks its selector on the value stack around the user
+    # blocks of its CASEs; EXIT SUB / EXIT FUNCTION inside a CASE leaves through PopRet, which must
+    # restore the depth the value stack had at the call (the caller's own parked operands stay)
+    parks = False
+    for fn in emit.generator_fns(prog):
+        evs = emit.events(prog, fn)
+        for seq in emit.linear_paths(fn.body, evs):
+            kinds = [(e.kind, e.instr) for e in seq]
+            if ("push", "PushAToValueStack") in kinds and any(k == "gen" or k == "BLOCK" for k, _i in kinds):
+                parks = True
+    if parks:
+        vs = {}
+        for v in ("PopRet", "PushRet"):
+            touches = False
+            for b, t in mir.region_calls(one.body, regions.get(v, ())):
+                for a in t["args"][:1]:
+                    o = mir.strip_refs(mir.Prov(one.body).of_operand(a))
+                    if o[0] == "field" and o[2] == "value_stack":
+                        touches = True
+            vs[v] = touches
+        ctx.decide(vs["PopRet"] and vs["PushRet"], rule, rule + ":PopRet:restores-value-stack", one.loc,
+                   "PushRet reads and PopRet restores the depth of value_stack",
+                   "a construct parks a value on the value stack around user code (SELECT CASE), but leaving the "
+                   "subprogram from inside it (PopRet: EXIT SUB, EXIT FUNCTION) does not restore the value stack to its "
+                   "depth at the call (PushRet touches value_stack: %s, PopRet: %s): the parked value is then taken for "
+                   "an operand of the caller's expression (`PRINT 100 + F%%(2)` prints 9)" % (vs["PushRet"], vs["PopRet"]))
     ctx.analysed_units(rule, frames=n)
     ctx.require(rule, 2)
 
